@@ -138,7 +138,10 @@ PLANS["C17"] = {
 }
 PLANS["C09"] = {
     "props": ["C09"], "ops": [],
-    "mc": [mc("C05", geoms("GTiny", "GQuick"), ports({"api": 2, "chars": 5}, {"api": 1, "chars": 2})),
+    "mc": [{"module": "MCReach", "model": "reach", "kind": "screen", "view": "View", "constraint": "StackBound",
+            "constants": {"MaxC": {"quick": 2, "thorough": 3}, "MaxL": {"quick": 2, "thorough": 2}, "Depth": 30},
+            "invariants": ["WellFormedInv", "OriginConfined", "Emit"], "ports": ports({"api": 2}, {"api": 2, "chars": 9}), "workers": 8},
+           mc("C05", geoms("GTiny", "GQuick"), ports({"api": 2, "chars": 5}, {"api": 1, "chars": 2})),
            mc("C16", geoms("GRowsQuick", "GRows"), ports({"api": 1}, {"api": 1})),
            mc("C14", geoms("GSmall", "GSmall"), ports({"api": 1}, ALLP)),
            mc("C12", geoms("GSmall", "GSmall"), ports({"api": 1, "chars": 1}, ALLP)),
